@@ -42,6 +42,21 @@ async def lost_update(store):
     return final in serial, final
 
 
+async def two_edits(store):
+    """C20: two concurrent read-modify-write blocks on one store must both take effect (n ends at 2)."""
+    await store.set("n", 0)
+
+    async def bump(delay):
+        await asyncio.sleep(delay)
+        async with store.edit_state() as s:
+            await asyncio.sleep(0.03)
+            s["n"] = s["n"] + 1
+
+    await asyncio.gather(bump(0.0), bump(0.01))
+    final = (await store.get_state()).to_dict()
+    return final.get("n") == 2, final
+
+
 def single_connection_survives():
     """C21: a single-connection store keeps working after the state store has been used."""
     async def go():
@@ -71,6 +86,10 @@ def main(argv):
         ok, final = asyncio.run(lost_update(_sqlite_store()[1]))
     elif which == "lost_update_memory":
         ok, final = asyncio.run(lost_update(_mem_store()))
+    elif which == "two_edits_sqlite":
+        ok, final = asyncio.run(two_edits(_sqlite_store()[1]))
+    elif which == "two_edits_memory":
+        ok, final = asyncio.run(two_edits(_mem_store()))
     elif which == "single_connection":
         ok, final = single_connection_survives()
     else:
